@@ -415,6 +415,30 @@ def rule_rich(chk):
     cfg = ctx.cfg(jd)
     oparam = jd.params[0]
     arms = 0
+    optional_mods = set()
+    for n in iter_own_nodes(jd.node):
+        if isinstance(n, ast.Assign) and isinstance(n.targets[0], ast.Name) and isinstance(n.value, ast.Call) and unparse(n.value.func) == "sys.modules.get":
+            optional_mods.add(n.targets[0].id)
+    CONCRETE_EXT = set(STD_RICH) | {"datetime.datetime", "uuid.UUID", "enum.Enum", "decimal.Decimal"}
+    for t in cfg.live:
+        if t.kind != "test":
+            continue
+        for e in ast.walk(t.exprs[0]):
+            if not (isinstance(e, ast.Call) and isinstance(e.func, ast.Name) and e.func.id == "isinstance" and len(e.args) == 2
+                    and isinstance(e.args[0], ast.Name) and e.args[0].id == oparam):
+                continue
+            cls_exprs = e.args[1].elts if isinstance(e.args[1], ast.Tuple) else [e.args[1]]
+            for ce in cls_exprs:
+                base = ce
+                while isinstance(base, ast.Attribute):
+                    base = base.value
+                if isinstance(base, ast.Name) and base.id in optional_mods:
+                    continue  # a class of an optional third-party package (numpy, pandas, ...)
+                r0 = ctx.p.resolve_expr_static(jd.module, jd, ce) if isinstance(ce, (ast.Name, ast.Attribute)) else None
+                concrete = bool(r0) and ((r0[0] == "ext" and r0[1] in CONCRETE_EXT) or (r0[0] == "builtin" and r0[1] in ("set", "frozenset", "complex", "bytes", "bytearray")))
+                chk.req(concrete, "C10.rich", "json_default:converts-only-documented-concrete-types(%s)" % unparse(ce), chk.where(jd, t.lineno),
+                        good="%s is a documented concrete type" % unparse(ce),
+                        fail="json_default now matches `%s`, an open-ended protocol/class outside the documented rich types: arbitrary application objects (e.g. one-shot iterators) are consumed or altered by being logged" % unparse(ce))
     for t in cfg.live:
         if t.kind != "test":
             continue
@@ -444,6 +468,8 @@ def rule_rich(chk):
         chk.req(bool(rets) and not bad, "C10.rich", "json_default:%s-arm-is-total" % tname, chk.where(jd, t.lineno),
                 good="the %s arm returns without running user code on the value" % tname,
                 fail="the %s arm evaluates %s: for some values of this documented type the encoder raises and the message's line is never written" % (tname, bad or "no return"))
+    if arms < 5 and any(o.status == "VIOLATED" for o in chk.obs):
+        return
     chk.instances("C10.rich:documented stdlib rich-type arms", arms, 5)
 
 
